@@ -70,7 +70,7 @@ PROPS.update({
         level_note=COMMON_NOTE + "Glyphs of width <= 1 in the theorems; move_cursor=false; the vt100 emulator stands for the terminal.",
         ),
     "C02": dict(
-        streams=[dict(cmd="C02"), dict(cmd="ROWS")],
+        streams=[dict(cmd="C02"), dict(cmd="C03b"), dict(cmd="ROWS")],
         technique="Lean 4 refinement proof (slot bookkeeping refines the documented order; frame invariant of the row-level MultiState model over every operation history) + differential correspondence",
         level_text="The ordering/free-set bookkeeping of MultiState is proved to refine the documented list-of-bars order for every operation history, with the slot partition "
                    "kept by every operation; on the row-level model (validated against the real terminal by the ROWS stream) it is proved for every history that the managed region "
@@ -110,8 +110,9 @@ PROPS.update({
         ),
     "C10": dict(
         streams=[dict(cmd="C10")],
-        technique="Lean 4 proof of totality of the transcribed parser state machine (induction over the input string) + exhaustive/generated differential classification",
-        level_text="The arm-by-arm Lean transcription of the template parser is proved never to panic on any string; its Ok/Err(state,char) classification equals the real "
+        technique="Lean 4 proofs of totality (induction over the input string) and fidelity (every template of the documented grammar parses to exactly the parts it denotes) of the transcribed parser state machine + exhaustive/generated differential classification",
+        level_text="The arm-by-arm Lean transcription of the template parser is proved never to panic on any string and to map every well-formed template (literal text with doubled braces, "
+                   "{key[:[<^>][width][!][.style[/alt]]]} placeholders, line breaks) to exactly the parts it denotes (C10_faithful); its Ok/Err(state,char) classification equals the real "
                    "parser's on all short strings over the brace alphabet, random Unicode strings and grammar-generated templates, whose rendering is judged for fidelity.",
         level_note=COMMON_NOTE,
         ),
